@@ -42,10 +42,11 @@ def gen(rng, count, sizes):
                                   rng.choice([0.9, 2.5]))
             if same and axis == "y":
                 off = off[0:n] * nb   # identical bunches need identical displacement fields too
-            multi = C.kick_case(gid, axis, n, it, nb, -1, off, data)
+            cl = 1 if k % 2 == 1 else 0       # with and without the interpolation-clamp switch
+            multi = C.kick_case(gid, axis, n, it, nb, -1, off, data, clamp=cl)
             for b in range(nb):
                 ob = off[b * n:(b + 1) * n] if axis == "y" else off[0:n]
-                singles.append(C.kick_case("%s_%d" % (gid, b), axis, n, it, 1, -1, ob, data[b * n * n:(b + 1) * n * n]))
+                singles.append(C.kick_case("%s_%d" % (gid, b), axis, n, it, 1, -1, ob, data[b * n * n:(b + 1) * n * n], clamp=cl))
         elif kind == "rf":
             steps = rng.choice([50, 300, 1000])
             angle = f32(2 * math.pi / steps)
@@ -78,7 +79,8 @@ def gen(rng, count, sizes):
             steps = rng.choice([50, 300, 1000])
             angle = f32(2 * math.pi / steps)
             e = box + [angle, f32(angle * rng.uniform(-3, 3)), f32(angle * rng.uniform(-30, 30)), f32(1.3e9)]
-            hd = "drift %s %d %d %d\nextra %s\n"
+            cl = 1 if k % 2 == 1 else 0
+            hd = "drift %s %d %d %d " + str(cl) + "\nextra %s\n"
             multi = hd % (gid, n, it, nb, ex(e)) + "data %s\nrun\n" % ex(data)
             for b in range(nb):
                 singles.append(hd % ("%s_%d" % (gid, b), n, it, 1, ex(e)) +
